@@ -60,10 +60,10 @@ var HostileKeys = []string{"a", "b", "c", "d", "", "a/b", "m~n", "~", "/", "~1",
 var PlainKeys = []string{"a", "b", "c", "d", "e", "f", "k", "0", "1", "zz"}
 var MergeKeys = []string{"a", "b", "c", "d", "x<y", "", "a~1b", "~0", `b\s`, `q"r`, "\x01\x7f", "sensor_reading_01_celsius", "sensor_reading_02_celsius"}
 
-var HostileStrings = []string{"", "s", "x<y>&z", "\xe2\x80\xa8\xe2\x80\xa9", "\u2039a\u203a\u203c\u2027\u202a\u2030", "é😀", `q"r\`, "\b\f\n\r\t\x01", "A", "/", "~", "null", "0", "a b", "\u007f", "𝄞", `\u003c`, `x\\u0026`, "[", "{\""}
+var HostileStrings = []string{"", "s", "x<y>&z", "\xe2\x80\xa8\xe2\x80\xa9", "\u2039a\u203a\u203c\u2027\u202a\u2030", "é😀", `q"r\`, "\b\f\n\r\t\x01", "A", "/", "~", "null", "0", "a b", "\u007f", "𝄞", `\u003c`, `x\\u0026`, "[", "{\"", `a\"b`, `\\"`, `["\"]`}
 var PlainStrings = []string{"", "s", "A", "hello world", "null", "0", "é", "😀", "a b c"}
 
-var OddNumbers = []string{"0", "1", "-1", "-0", "1.0", "1e400", "1E+2", "12345678901234567890123", "0.1e-7", "2.50", "1e0", "100", "7", "0.0", "-1.5e-3", "9007199254740993"}
+var OddNumbers = []string{"0", "1", "-1", "-0", "1.0", "1e400", "1E+2", "12345678901234567890123", "0.1e-7", "2.50", "1e0", "100", "7", "0.0", "-1.5e-3", "9007199254740993", "1.5e10", "1.5e1", "2.25E-20", "2.25E-2", "6.022e230", "6.022e23", "1.50e1"}
 var PlainNumbers = []string{"0", "1", "-1", "2", "7", "100", "12345", "1.5", "-2.25", "9007199254740991"}
 
 func Hostile() *Profile {
@@ -387,6 +387,13 @@ func (p *Profile) MutateOnePoint(r *rand.Rand, v *jr.Value) *jr.Value {
 			// a neighbouring integer: a different number with (for long literals) the same float64 image
 			nl := byte('0' + (last-'0'+1)%10)
 			n.Lit = n.Lit[:len(n.Lit)-1] + string(nl)
+		case r.Intn(3) == 0 && strings.ContainsAny(n.Lit, "eE") && last >= '0' && last <= '9':
+			// another exponent with the same leading digits (1.5e1 / 1.5e10 / 1.5e100)
+			if last == '0' && r.Intn(2) == 0 && len(n.Lit) >= 2 && n.Lit[len(n.Lit)-2] >= '0' && n.Lit[len(n.Lit)-2] <= '9' {
+				n.Lit = n.Lit[:len(n.Lit)-1]
+			} else {
+				n.Lit += "0"
+			}
 		case n.Lit == "3":
 			n.Lit = "4"
 		default:
